@@ -11,7 +11,9 @@ Scope
   thorough : the same for <= 4 tasks, plus all forward DAGs with exactly 5 tasks
              restricted to kinds {run_command, run_experiment without / with
              recorded versions} (group / combine add no new planner path beyond
-             <= 4 and the full product would be 65M cases).
+             <= 4 and the full product would be 65M cases); in mode "again" the
+             5-task graphs are run without recorded versions only (with --again
+             a recorded version does not influence planning).
 
 Oracle (independent, from DESIGN 5.1/5.2/5.7): runs(t) := again or t is not an
 experiment with a recorded version; V := least set containing the root and
@@ -87,7 +89,7 @@ def _scope(tier):
          "x {default,again}")
     if tier == "thorough":
         s += ("; plus all forward DAGs with 5 tasks x orders x kinds {run_command,"
-              "run_experiment} x recorded flag x {default,again}")
+              "run_experiment} x recorded flag x {default,again} (again: without recorded versions)")
     return s
 
 
@@ -166,8 +168,12 @@ def _needed(deps, opts, again):
 
 
 def _case_json(deps, opts, again):
-    return G.graph_json(deps, kinds=opts,
-                        extra={"root": "//:t0", "mode": "again" if again else "default"})
+    j = G.graph_json(deps, kinds=opts,
+                     extra={"root": "//:t0", "mode": "again" if again else "default"})
+    for i, o in enumerate(opts):
+        if o == "E":  # the two recorded versions (timestamps) inserted for this task
+            j["tasks"][G.task_name(i)]["recorded_versions"] = [1000 + i, 2000 + i]
+    return j
 
 
 def _eval_case(env, deps, gi, opts, again, tally):
@@ -522,6 +528,8 @@ def _worker(arg):
             if deps is not last_deps:
                 last_deps, last_gi = deps, _graph_info(deps)
             for again in (False, True):
+                if again and len(deps) >= 5 and "E" in opts:
+                    continue  # 5 tasks: with --again a recorded version changes nothing but the clock
                 _eval_case(env, deps, last_gi, opts, again, tally)
             if seen_samples < 1 and len(deps) >= 3 and G.n_edges(deps) >= 3:
                 seen_samples += 1
